@@ -358,7 +358,7 @@ def _sig(s, rot):
 def _ratio_forms(name):
     """the Python values a ratio can be written as (boundary values of the argument included)"""
     if name == "zero":
-        return [0, 0.0, np.float64(0.0), np.float32(0.0), -0.0]
+        return [0, 0.0, np.float64(0.0), -0.0]      # (no float32: it would lower the precision of the result)
     if name == "one":
         return [None, 1, 1.0, np.float64(1.0)]
     if name == "half":
@@ -821,7 +821,8 @@ def _mut_path(job):
         except Exception as ex:
             what = f"raised {type(ex).__name__}: {ex}"
         if what:
-            fid = F_MOVE if (kind in ("rect", "square") and moved) else None
+            geometric = "vertices differ" in what or "is_point_inside_shape" in what
+            fid = F_MOVE if (kind in ("rect", "square") and moved and geometric) else None
             if fid is None and kind in ("rect", "square") and e["post"]["rot"] % (90 if kind == "square" else 180) != 0 \
                     and "is_point_inside_shape" in what:
                 fid = F_RECT
